@@ -105,6 +105,8 @@ def eval_case(ctx, case):
     steps = case.get("steps") or [mapping]
     v = []
     sig = {"layout": case["layout"], "steps": len(steps), "extra_new": bool(case.get("extra"))}
+    if case.get("spell"):
+        sig["root_spelled"] = case["spell"]
     if case.get("late"):
         sig["late_dr"] = True
     stats = {"cmds": 0}
@@ -138,7 +140,7 @@ def eval_case(ctx, case):
         # (3) create -dr  (case 'late': only after a plain create has already recorded the new paths and reported the old ones missing)
         if case.get("late") and si == 0 and renamed and r0.exit == 10:
             t = post0
-        r1, post = run(ctx, t, ops.create("", fmts, dr=True, i=case.get("dr_i")), now + 10); stats["cmds"] += 1
+        r1, post = run(ctx, t, ops.create("", fmts, dr=True, i=case.get("dr_i"), spell=case.get("spell")), now + 10); stats["cmds"] += 1
         if case.get("rmdirs"):
             # the removed folder itself is a recorded entry that is gone: exactly it is reported (exit 10), none of the moved files
             mb = missing_block(r1.err)
@@ -173,7 +175,8 @@ def eval_case(ctx, case):
             if p not in mp.values() and rec["previousPath"] is not None:
                 V("dr-spurious-previous-path", f"{desc}: {p} carries previousPath {rec['previousPath']!r}")
         # (4) follow-ups accept the tree
-        for fo in (["verify", {"root": ""}], ["diff", {"root": ""}], ops.create("", fmts)):
+        for fo in (["verify", {"root": "", "spell": case.get("spell")}], ["diff", {"root": "", "spell": case.get("spell")}],
+                   ops.create("", fmts, spell=case.get("spell"))):
             r2, _ = run(ctx, post, fo, now + 20); stats["cmds"] += 1
             if r2.exit != 0 or r2.exc:
                 V("followup-rejects", f"{desc}: after create -dr, {fo[0]} exits {r2.exit} {r2.exc or ''}\n{r2.err[-300:]}",
@@ -185,6 +188,16 @@ def eval_case(ctx, case):
             if r3.exit != 11:
                 V("altered-renamed-file-passes", f"{desc}: {n} (formerly {o}) altered after the rename generation: verify exits {r3.exit}",
                   exit=r3.exit)
+        # the OLD name of a renamed file is free again: a folder of that name (holding a new file) is an addition like any other,
+        # the recorded file is still known under its new name
+        if case.get("old_name_reused") and si == 0 and renamed:
+            o0 = sorted(renamed)[0]
+            t4 = dict(post); t4[o0] = DIR; t4[o0 + "/brand new.bin"] = b"a new file in a folder that took the old name"
+            for fo, want in ((["verify", {"root": ""}], 21), (["diff", {"root": ""}], 21), (ops.create("", fmts), 0)):
+                r4, _ = run(ctx, t4, fo, now + 40); stats["cmds"] += 1
+                if r4.exit != want or r4.exc:
+                    V("old-name-reused-as-folder", f"{desc}, then a folder named {o0} appears: {fo[0]} exits {r4.exit} {r4.exc or ''}, expected {want}\n"
+                      f"{r4.err[-300:]}", cmd=fo[0], exit=r4.exit)
         cur = post
         now += 100
     return v, stats
@@ -244,6 +257,11 @@ def main(tier, seed):
                 cases.append({"layout": name, "base": base, "mapping": mp, "fmts": fmts, "dr_i": ["cache"]})
                 continue
             cases.append({"layout": name, "base": base, "mapping": mp, "fmts": fmts})
+            if name == "flat" and sum(o != n for o, n in mp.items()) in (1, 2):
+                cases.append({"layout": name, "base": base, "mapping": mp, "fmts": fmts, "old_name_reused": True})
+            if name == "flat" and sum(o != n for o, n in mp.items()) in (1, 3):   # ... with the root folder spelled in other ways
+                for sp in ("slash", "slashslash", "dot", "symlink", "dotdot"):
+                    cases.append({"layout": name, "base": base, "mapping": mp, "fmts": fmts, "spell": sp})
             if name == "flat":
                 cases.append({"layout": name, "base": base, "mapping": mp, "fmts": fmts, "extra": True})
                 if any(o != n for o, n in mp.items()):
